@@ -174,29 +174,55 @@ def frame_counting(ctx, report):
     report.check(not bad, "R-ONCE", fn, "every path through _translate_word counts exactly one frame, after handling the word",
                  {"paths": len(paths), "offending_paths": bad[:4]}, "2")
     report.count("paths_checked", len(paths))
+    line_fold(ctx, report, ctx.memo("folder", lambda: Folder(ctx.index)))
+
+
+def line_fold(ctx, report, folder):
+    """`SCCReader._translate_line` folded on stub readers that record what is handed on: the time code starts the
+    line's clock once, before any word; every four-character word is translated once, in order, with the word
+    that follows it as look-ahead; nothing else is translated"""
+    from ..core.constfold import Stub, FoldRaise
     ln = ctx.index.get_function(SCC, "SCCReader._translate_line")
     report.covered(ln)
-    classify2 = PR.call_classifier({"start_at": "START", "_translate_word": "WORD"})
-    paths = PR.paths_of_block(ln.node.body, classify2)
-    bad = []
-    saw_word = False
-    for ev, end in paths:
-        fl = PR.flat(ev)
-        if "WORD" in fl:
-            saw_word = True
-            if fl.count("START") != 1 or fl.index("START") > fl.index("WORD"):
-                bad.append([str(e) for e in fl])
-            # inside one loop iteration the word is translated at most once
-            for e in ev:
-                if isinstance(e, tuple) and e and e[0] == "loop" and PR.count_label(e[1], "WORD") > 1:
-                    bad.append([str(x) for x in fl])
-    report.check(saw_word and not bad, "R-ONCE", ln, "start_at once before the words; one _translate_word per word",
-                 {"offending_paths": bad[:3]}, "2")
-    # the word filter is `len(word) == 4`
-    tests = [n for n in walk_no_nested(ln.node) if isinstance(n, ast.If) and any(
-        isinstance(c, ast.Call) and (call_name(c) or "").endswith("_translate_word") for c in walk_no_nested(n))]
-    ok = len(tests) == 1 and re.fullmatch(r"len\(\w+\) == 4", src(tests[0].test)) is not None
-    report.check(ok, "R-GUARD", ln, "a code word is four hex digits", [src(t.test) for t in tests], "2")
+    lines = ["00:00:01:00\t9420 94ae c1c2 942f", "00:00:01;00\t9420 9420 94ae 94ae 9470 9470 c1c2 c3c4 942f 942f",
+             "00:00:02:00 9425", "00:00:03:00\t9420  94ae 1 c1c2 c1c2c 942f ab", "00:00:04:00\t9420 94AE C1C2",
+             "00:00:05:00\t", "   ", "", "00:00:06:00\t9420 94ae\n"]
+    bad_once, bad_guard = [], []
+    for text in lines:
+        log = []
+        clock = Stub("time_translator", {}, methods={"start_at": lambda t: log.append(("START", t)),
+                                                      "increment_frames": lambda: log.append(("FRAME",))})
+        me = Stub("reader", {"time_translator": clock}, cls=ln.cls, methods={
+            "_translate_word": lambda word=None, next_command=None, **k: log.append(("WORD", word, next_command))})
+        try:
+            folder.call_function(ln, [text], {}, self_value=me)
+        except FoldRaise as e:
+            bad_once.append({"line": text, "raises": e.exc_name or str(e)})
+            continue
+        except AnalysisError as e:
+            raise AnalysisError(f"_translate_line cannot be folded on a stub reader: {e}")
+        low = text.lower()
+        if not low.strip():
+            want = []
+        else:
+            m = re.match(r"([0-9:;]*)([\s\t]*)(.*)", low)
+            words = m.group(3).split(" ")
+            want = [("START", m.group(1))]
+            for k, w in enumerate(words):
+                if len(w.strip()) == 4:
+                    want.append(("WORD", w.strip(), words[k + 1] if k + 1 < len(words) else None))
+        if log != want:
+            starts = [x for x in log if x[0] == "START"]
+            if len(starts) != len([x for x in want if x[0] == "START"]) or (starts and log[0][0] != "START") \
+                    or [x[1] for x in log if x[0] == "WORD"] == [x[1] for x in want if x[0] == "WORD"]:
+                bad_once.append({"line": text, "handed_on": log, "required": want})
+            else:
+                bad_guard.append({"line": text, "translated": [x[1] for x in log if x[0] == "WORD"],
+                                  "required": [x[1] for x in want if x[0] == "WORD"]})
+    report.check(not bad_once, "R-ONCE", ln, "start_at once before the words; one _translate_word per word",
+                 {"lines_folded": len(lines), "mismatches": bad_once[:3]}, "2")
+    report.check(not bad_guard, "R-GUARD", ln, "a code word is four hex digits",
+                 {"lines_folded": len(lines), "mismatches": bad_guard[:3]}, "2")
 
 
 def thresholds(ctx, report, folder):
@@ -238,31 +264,14 @@ def thresholds(ctx, report, folder):
     (pp, v), = ev._eval(st[0].value, p, fx)
     check_affine(report, "R-AFFINE", (fx, st[0]), "an uncleared final caption lasts four seconds", v,
                  {"$c.start": 1, "": 4 * 10**6}, {"$c.start", "$c.end"}, "3")
-    ok = len(loops) == 1 and src(loops[0].iter).startswith("reversed(") and st[0] in list(walk_no_nested(loops[0])) \
-        and any(isinstance(n, ast.If) and re.fullmatch(r"\w+\.end", src(n.test)) and
-                any(isinstance(b, (ast.Return, ast.Break)) for b in n.body) for n in loops[0].body)
-    report.check(ok, "R-LOOP", fx, "every trailing caption without an end gets the default (walk back until one has an end)",
-                 {"loop": short(loops[0]) if loops else None}, "3")
-    rd = ctx.index.get_function(SCC, "SCCReader.read")
-    flash = [n for n in walk_no_nested(rd.node) if isinstance(n, ast.If) and isinstance(n.test, ast.Compare)
-             and len(n.test.ops) == 2 and any(isinstance(b, ast.Raise) for b in n.body)]
-    if len(flash) != 1:
-        raise AnalysisError("SCCReader.read: flash-cue test not found")
-    t = flash[0].test
-    ok = isinstance(t.left, ast.Constant) and t.left.value == 0 and isinstance(t.ops[0], ast.Lt) \
-        and isinstance(t.ops[1], ast.Lt) and re.fullmatch(r"(\w+)\.end - \1\.start", src(t.comparators[0])) \
-        and isinstance(t.comparators[1], ast.Constant) and t.comparators[1].value == 50000
-    report.check(bool(ok), "R-THRESHOLD", (rd, flash[0]), "displayed duration in (0, 0.05 s) is a flash cue",
-                 {"test": src(t), "required": "0 < end - start < 50000"}, "3")
-    r = flash[0].body[0] if isinstance(flash[0].body[0], ast.Raise) else None
-    name = call_name(r.exc) if r is not None and isinstance(r.exc, ast.Call) else None
-    report.check(name == "CaptionReadTimingError", "R-MUSTRAISE", (rd, flash[0]),
-                 "a flash cue raises CaptionReadTimingError instead of being returned", {"raises": name}, "3")
-    # the scan covers every returned caption and precedes the return
-    loop = [n for n in walk_no_nested(rd.node) if isinstance(n, ast.For) and flash[0] in list(walk_no_nested(n))]
-    ok = len(loop) == 1 and "get_captions" in src(loop[0].iter)
-    report.check(ok, "R-LOOP", rd, "the flash-cue test runs over all captions of the result",
-                 short(loop[0].iter) if loop else None, "3")
+    from . import scc_read_fold
+    scc_read_fold.run(ctx, report, {
+        "flash": ("R-THRESHOLD", "3", "displayed duration in (0, 0.05 s) is a flash cue: read() raises CaptionReadTimingError "
+                                      "instead of returning it (every caption of the result is tested)"),
+        "final": ("R-LOOP", "3", "read() gives every trailing caption without an end the default end, walking back until a "
+                                 "caption has one; every other caption is returned untouched, in order"),
+        "lines": ("R-ONCE", "2", "every line but the header is handed to the decoder once, in order, before the final flush"),
+    })
 
 
 def eoc_edm(ctx, report):
